@@ -24,16 +24,20 @@ from harness.common import NCPU, MachineryError, pmap
 MODSRC = {
     "a": '''"""a"""
 
+from typing import Optional
+
 
 class Alpha(object):
     """
     Alpha class
 
     :cvar x: the x
-    :cvar y: the y"""
+    :cvar y: the y
+    :cvar opt: the opt"""
 
     x: int = 1
     y: str = "q"
+    opt: Optional[str] = None
 
 
 def helper(z: int = 3) -> int:
@@ -53,14 +57,18 @@ __all__ = ["Alpha", "helper"]
 ''',
     "g": '''"""g"""
 
+from typing import Optional
+
 
 class Gamma(object):
     """
     Gamma class
 
-    :cvar w: the w"""
+    :cvar w: the w
+    :cvar tag: the tag"""
 
     w: float = 0.5
+    tag: Optional[str] = None
 
 
 __all__ = ["Gamma"]
@@ -82,10 +90,12 @@ __all__ = ["Delta"]
 }
 
 
-def layout(root, pkg, levels, deep="deep"):
+def layout(root, pkg, levels, deep="deep", reexport="flat"):
     p = os.path.join(root, "src", pkg)
     os.makedirs(p)
     inits = {1: 'from {0}.a import Alpha, helper\n\n__all__ = ["Alpha", "helper"]\n'}
+    if reexport == "nested":
+        inits = {1: 'from {0}.a import Alpha, helper\nfrom {0}.sub import Gamma\n\n__all__ = ["Alpha", "helper", "Gamma"]\n'}
     with open(os.path.join(p, "__init__.py"), "w") as f:
         f.write('"""pkg"""\n\n' + inits[1].format(pkg))
     with open(os.path.join(p, "a.py"), "w") as f:
@@ -94,7 +104,10 @@ def layout(root, pkg, levels, deep="deep"):
         s = os.path.join(p, "sub")
         os.makedirs(s)
         with open(os.path.join(s, "__init__.py"), "w") as f:
-            f.write('"""sub"""\n\nfrom {0}.sub.g import Gamma\n\n__all__ = ["Gamma"]\n'.format(pkg))
+            if reexport == "nested" and levels >= 3:
+                f.write('"""sub"""\n\nfrom {0}.sub.g import Gamma\nfrom {0}.sub.{1} import Delta\n\n__all__ = ["Gamma", "Delta"]\n'.format(pkg, deep))
+            else:
+                f.write('"""sub"""\n\nfrom {0}.sub.g import Gamma\n\n__all__ = ["Gamma"]\n'.format(pkg))
         with open(os.path.join(s, "g.py"), "w") as f:
             f.write(MODSRC["g"])
     if levels >= 3:
@@ -131,7 +144,7 @@ def run_case(args):
     work = tempfile.mkdtemp(prefix="c20-", dir=workroot)
     pkg = "vpkg{}".format(idx)
     deep = pkg + "_ext" if o.get("deepname") == "rootish" else "deep"
-    layout(work, pkg, o["levels"], deep)
+    layout(work, pkg, o["levels"], deep, o.get("reexport", "flat"))
     out = os.path.join(work, "out")
     if o["out_exists"]:
         os.makedirs(out)
@@ -287,7 +300,7 @@ def _check(run, replay, work):
         # strata that a uniform sample would mostly miss: filters on a dotted exposed package, histories, prefix-sharing names
         def rare(c):
             o = c["o"]
-            return o.get("expose") == "sub" and (o["black"] or o["white"]) or o.get("prior") or o.get("deepname") == "rootish"
+            return o.get("expose") == "sub" and (o["black"] or o["white"]) or o.get("prior") or o.get("deepname") == "rootish" or o.get("reexport") == "nested"
         special = [c for c in cases if rare(c)]
         rest_dry = [c for c in dry if not rare(c)]
         rest_wet = [c for c in wet if not rare(c)]
